@@ -154,8 +154,13 @@ func caseKey(cs *caseSpec) string {
 }
 
 // execute runs one case, counts it and records violations.
-func execute(r *ev.Run, cs *caseSpec) {
-	o := runCase(cs)
+func execute(r *ev.Run, cs *caseSpec, run func() outcome) {
+	var o outcome
+	if run != nil {
+		o = run()
+	} else {
+		o = runCase(cs)
+	}
 	r.Evals.Add(1)
 	if cs.Kind == "npm" {
 		npmCases.Add(1)
@@ -241,36 +246,6 @@ func permutations(n int) [][]int {
 	return out
 }
 
-func replay(path string) {
-	b, err := os.ReadFile(path)
-	if err != nil {
-		fmt.Fprintln(os.Stderr, "replay:", err)
-		os.Exit(3)
-	}
-	var f struct {
-		Key    string   `json:"key"`
-		What   string   `json:"what"`
-		Replay caseSpec `json:"replay"`
-	}
-	if err := json.Unmarshal(b, &f); err != nil {
-		fmt.Fprintln(os.Stderr, "replay:", err)
-		os.Exit(3)
-	}
-	fmt.Printf("replaying %s case, recorded key %s\n  updates %s\n", f.Replay.Kind, f.Key, fmtUpdates(f.Replay.Updates))
-	o := runCase(&f.Replay)
-	if o.writeErr != "" {
-		fmt.Printf("  Write returned error (accepted): %s\n", o.writeErr)
-	}
-	if len(o.discs) == 0 {
-		fmt.Println("  no discrepancy observed: property holds on this case")
-		os.Exit(0)
-	}
-	for _, d := range o.discs {
-		fmt.Printf("  DISCREPANCY %s: %s\n", d.Key, d.What)
-	}
-	os.Exit(1)
-}
-
 func main() {
 	scalog.SetLogger(silentLogger{})
 	var err error
@@ -281,26 +256,23 @@ func main() {
 	}
 	cleanup := func() { os.RemoveAll(tmpRoot) }
 	if p := os.Getenv("VERIF_REPLAY"); p != "" {
-		defer cleanup()
-		func() {
-			defer func() {
-				if x := recover(); x != nil {
-					cleanup()
-					panic(x)
-				}
-			}()
-			// replay exits itself; remove the temp dir first via a wrapper
-			code := replayCode(p)
-			cleanup()
-			os.Exit(code)
-		}()
-		return
+		code := replayCode(p)
+		cleanup()
+		os.Exit(code)
 	}
 
 	r := ev.Start("C13", "exploration", 150*time.Second, 27*time.Minute)
 
 	npmDocs := genNpmDocs(r.Thorough())
 	pomDocs := genPomDocs(r.Thorough())
+	switch os.Getenv("VERIF_C13_ONLY") { // debugging aid; the evidence then says exhaustive=false
+	case "npm":
+		pomDocs = nil
+		r.Cap("VERIF_C13_ONLY=npm")
+	case "pom":
+		npmDocs = nil
+		r.Cap("VERIF_C13_ONLY=pom")
+	}
 	r.Set("npm_documents", len(npmDocs))
 	r.Set("pom_documents", len(pomDocs))
 
